@@ -11,6 +11,7 @@ import (
 	"sort"
 	"strings"
 
+	"sfcheck/an"
 	"sfcheck/core"
 )
 
@@ -326,6 +327,11 @@ func DumpFuncs(repo, verif string) int {
 		for _, fn := range pkgFuncs(sp) {
 			if fn.Parent() == nil && fn.Synthetic == "" {
 				names = append(names, fn.String())
+				if fn.Signature.Recv() != nil && len(fn.Params) > 0 {
+					if n := an.NamedOf(fn.Signature.Recv().Type()); n != nil && n.Obj().Pkg() != nil {
+						names = append(names, "RECV "+n.Obj().Pkg().Path()+"."+n.Obj().Name()+" "+fn.Params[0].Name())
+					}
+				}
 			}
 		}
 	}
